@@ -11,7 +11,9 @@ def gen_defs(rng, mode):
     n = rng.randint(1, 3)
     out = []
     for i in range(n):
-        ident = rng.choice(["", "A", "AB", "X1", "ABC", "Z9", "Q"]) if rng.random() < 0.9 else ""
+        # identifiers that begin or end with a blank column are part of positional layouts; a delimited line trims its tokens,
+        # so there they are outside the domain (the written identifier token would not be the identifier any more)
+        ident = rng.choice(["", "A", "AB", "X1", "ABC", "Z9", "Q"] + ([" CT", " &X", "R "] if mode != "delim" else [])) if rng.random() < 0.9 else ""
         digits = rng.randint(len(ident), len(ident) + 3)
         fs = []
         pos = digits
